@@ -1,7 +1,7 @@
 (* Properties_C12.v — C12: read-ahead is bounded and the source is only ever driven by one thread.
    Model: ConcModel.v (reader / workers / sorter / consumer at the granularity of their primitives, generations of
    iterators over one shared source, join with timeout). Proofs: ConcInv.v. *)
-From PD Require Import Base ConcModel ConcObs ConcInv.
+From PD Require Import Base ConcModel ConcObs ConcInv ConcOwner.
 Open Scope nat_scope.
 
 (* Read-ahead bound, FULL statement: for every configuration (Prefetcher or ParallelMapper, any num_workers, in_order or
@@ -50,3 +50,23 @@ Print Assumptions C12_single_owner_refuted.
 Example d10_second_epoch_loses_first_item :
   s_obs (run d10_cfg d10_sched (init d10_script)) = [ObsReset; ObsItem 5; ObsReset; ObsItem 6; ObsShut].
 Proof. vm_compute. reflexivity. Qed.
+
+(* Single ownership, PROVED under the one hypothesis the refutation shows to be necessary: along ANY schedule in which
+   _shutdown's join() on the old READ thread never times out while that thread is alive (jt_free), for Prefetcher and
+   ParallelMapper, any parameters, any script of next / state_dict / reset / reset(loaded state) / shutdown, errors
+   included: no thread ever enters source.next / reset / state_dict while another one is inside next() — so every
+   epoch and every resume starts on a source nobody else is reading.  (Timeouts of every other wait, and join timeouts
+   on workers and sorter, are allowed.) *)
+Theorem C12_single_owner_partial : forall c script sched,
+  jt_free c (init script) sched = true -> s_overlap (run c sched (init script)) = false.
+Proof. exact single_owner. Qed.
+Print Assumptions C12_single_owner_partial.
+
+(* the hypothesis is exactly what the D10 witness violates, and it is satisfiable on histories with resets *)
+Example d10_is_not_jt_free : jt_free d10_cfg (init d10_script) d10_sched = false.
+Proof. vm_compute. reflexivity. Qed.
+Definition rr2 (n : nat) : list (tid * mode) := concat (repeat [(TC, Go); (TG 0 GR, Go); (TG 1 GR, Go)] n).
+Example jt_free_nonvacuous :
+  jt_free d10_cfg (init d10_script) (rr2 40) = true /\
+  s_obs (run d10_cfg (rr2 40) (init d10_script)) = [ObsReset; ObsItem 5; ObsReset; ObsItem 5; ObsShut].
+Proof. vm_compute. split; reflexivity. Qed.
